@@ -263,6 +263,10 @@ def show(t: Any) -> str:
         return f"{show(t[2])}#{t[1]}"
     if k == "raise":
         return "<raise>"
+    if k == "slot":
+        return show(t[1]) + "".join(f"[{show(x)}]" for x in t[2])
+    if k == "fresh":
+        return "<new dict>"
     if k == "unk":
         return f"<?{t[1]}>"
     return repr(t)
@@ -357,6 +361,7 @@ class Norm:
         self.prog = prog
         self._field_types: Dict[str, Type] = {}
         self.opaque_funcs: set = set()  # fq names never inlined (kept as ('call', fq, args))
+        self._local_tables: Dict[int, Dict[str, Any]] = {}
 
     # ------------------------------------------------------------ contexts
     def ctx_for(self, fi: FuncInfo, subst_locals: bool = True) -> Ctx:
@@ -477,39 +482,53 @@ class Norm:
                 return ("sym", f"module:{val}"), ("module", val)
         return ("sym", name), ANY
 
+    @staticmethod
+    def _build_local_table(fn: ast.AST) -> Dict[str, Tuple[List[ast.AST], Optional[ast.AST], Optional[ast.AST]]]:
+        """name -> (defining nodes in walk order, first annotation, iterable of a simple for-loop that binds it); one walk per function."""
+        table: Dict[str, List[Any]] = {}
+
+        def ent(name: str) -> List[Any]:
+            return table.setdefault(name, [[], None, None])
+
+        for n in ast.walk(fn):
+            if isinstance(n, ast.AnnAssign) and isinstance(n.target, ast.Name):
+                e = ent(n.target.id)
+                e[1] = e[1] or n.annotation
+                if n.value is not None:
+                    e[0].append(n)
+            elif isinstance(n, ast.Assign):
+                for tgt in n.targets:
+                    for nm in ast.walk(tgt):
+                        if isinstance(nm, ast.Name) and isinstance(nm.ctx, ast.Store):
+                            ent(nm.id)[0].append(n)
+            elif isinstance(n, ast.AugAssign) and isinstance(n.target, ast.Name):
+                ent(n.target.id)[0].append(n)
+            elif isinstance(n, (ast.For, ast.comprehension)):
+                for nm in ast.walk(n.target):
+                    if isinstance(nm, ast.Name):
+                        e = ent(nm.id)
+                        e[0].append(n)
+                        e[2] = n.iter if isinstance(n.target, ast.Name) else None
+            elif isinstance(n, ast.NamedExpr):
+                ent(n.target.id)[0].append(n)
+            elif isinstance(n, ast.ExceptHandler) and n.name:
+                ent(n.name)[0].append(n)
+            elif isinstance(n, ast.withitem) and n.optional_vars is not None:
+                for nm in ast.walk(n.optional_vars):
+                    if isinstance(nm, ast.Name):
+                        ent(nm.id)[0].append(n)
+        return {k: (v[0], v[1], v[2]) for k, v in table.items()}
+
     def _local(self, name: str, use: ast.AST, ctx: Ctx) -> Optional[Tuple[Term, Type]]:
         """Local variable: declared type from annotations; single-definition locals are substituted."""
         fn = ctx.func.node if ctx.func else None
         if fn is None:
             return None
-        defs: List[ast.AST] = []
-        ann: Optional[ast.AST] = None
-        loop_iter: Optional[ast.AST] = None
-        for n in ast.walk(fn):
-            if isinstance(n, ast.AnnAssign) and isinstance(n.target, ast.Name) and n.target.id == name:
-                ann = ann or n.annotation
-                if n.value is not None:
-                    defs.append(n)
-            elif isinstance(n, ast.Assign):
-                for tgt in n.targets:
-                    for nm in ast.walk(tgt):
-                        if isinstance(nm, ast.Name) and nm.id == name and isinstance(nm.ctx, ast.Store):
-                            defs.append(n)
-            elif isinstance(n, ast.AugAssign) and isinstance(n.target, ast.Name) and n.target.id == name:
-                defs.append(n)
-            elif isinstance(n, (ast.For, ast.comprehension)):
-                for nm in ast.walk(n.target):
-                    if isinstance(nm, ast.Name) and nm.id == name:
-                        defs.append(n)
-                        loop_iter = n.iter if isinstance(n.target, ast.Name) else None
-            elif isinstance(n, ast.NamedExpr) and n.target.id == name:
-                defs.append(n)
-            elif isinstance(n, ast.ExceptHandler) and n.name == name:
-                defs.append(n)
-            elif isinstance(n, ast.withitem) and n.optional_vars is not None:
-                for nm in ast.walk(n.optional_vars):
-                    if isinstance(nm, ast.Name) and nm.id == name:
-                        defs.append(n)
+        table = self._local_tables.get(id(fn))
+        if table is None:
+            table = self._build_local_table(fn)
+            self._local_tables[id(fn)] = table
+        defs, ann, loop_iter = table.get(name, ([], None, None))
         if not defs and ann is None:
             return None
         ty: Type = ann_to_type(self.prog, ctx.module, ann, ctx.cls) if ann is not None else ANY
